@@ -147,10 +147,31 @@ theorem C07_parts_filled_gb18030 (chars : List (List Nat)) (hseg : C14.GbSeg cha
     (h1 : gbBoundary chars.flatten b (b + per) < q) (h2 : q ≤ b + per) : ¬ IsBoundary chars q :=
   C14.C07_filled_gb18030 chars hseg per hper b hb hlt q h1 h2
 
+/-- the same for the texts the modelled encoders accept: no segmentation hypothesis left -/
+theorem C07_parts_filled_ucs2_text (text out : List Nat) (h : Text.encodeAll Text.utf16 text = some out)
+    (per : Nat) (heven : per % 2 = 0) (b : Nat) (hb : IsBoundary (C14.codeChars Text.utf16 text) b)
+    (hlt : b + per < out.length) (q : Nat) (h1 : ucs2Boundary out b (b + per) < q) (h2 : q ≤ b + per) :
+    ¬ IsBoundary (C14.codeChars Text.utf16 text) q := by
+  have hf := (C14.encodeAll_chars Text.utf16 text out h).1
+  have := C14.C07_filled_ucs2 (C14.codeChars Text.utf16 text) (C14.utf16_chars_seg text out h) per heven b hb
+  rw [hf] at this
+  exact this hlt q h1 h2
+
+theorem C07_parts_filled_gsm_text (text s : List Nat) (h : Gsm7.encode C08.T text = some s) (per b : Nat)
+    (hlt : b + per < s.length) (q : Nat) (h1 : gsmBoundary s b (b + per) < q) (h2 : q ≤ b + per) :
+    ¬ IsBoundary (C14.gsmChars C08.T text) q := by
+  obtain ⟨hf, hseg⟩ := C14.gsm_encode_chars text s h
+  have := C14.C07_filled_gsm (C14.gsmChars C08.T text) hseg per b
+  rw [hf] at this
+  exact this hlt q h1 h2
+
+
 end SmsVerif.C07
 
 section
 open SmsVerif.C07
+#print axioms C07_parts_filled_ucs2_text
+#print axioms C07_parts_filled_gsm_text
 #print axioms C07_part_sizes
 #print axioms C07_header_fields
 #print axioms C07_too_many_parts_refused
